@@ -80,7 +80,7 @@ class C06(CheckBase):
     def run(self, plan):
         text, fired, where = faults.apply_all_express(plan["schema_text"], plan["faults"])
         cpu = 10 + len(text) // 1000000 + 1
-        o = toolsim.run_tool("san", plan["tool"], plan["schema"], text, {"heap_seed": None}, args=plan["args"], cpu_s=cpu)
+        o = toolsim.run_tool("san", plan["tool"], plan["schema"], text, {"heap_seed": None}, args=plan["args"], cpu_s=cpu, shared_dir=False)
         return {"rc": o["rc"], "sig": o["sig"], "timed_out": o["timed_out"], "stderr": o["stderr"], "stdout": o["stdout"][-500:], "n_files": o["n_files"],
                 "fired": fired, "where": where, "changed": text != plan["schema_text"], "len": len(text)}
 
@@ -105,7 +105,13 @@ class C06(CheckBase):
                 "probes": probes, "faults": obs["fired"], "state": core.hash_obj([plan["tool"], end, obs["n_files"] > 0])}
 
     def plan_features(self, plan):
-        return ["tool:" + plan["tool"], "schema:" + plan["schema"], "label:" + plan["label"]] + ["fault:" + f["kind"] for f in plan["faults"]]
+        f = ["tool:" + plan["tool"], "schema:" + plan["schema"], "label:" + plan["label"]]
+        f += ["fault:" + x["kind"] + (":" + x["cls"] if "cls" in x else "") for x in plan["faults"]]
+        if plan["label"].startswith("long-identifier") or any(x["kind"] == "stretch" and x.get("cls") == "keyword" for x in plan["faults"]):
+            f.append("long-identifier")
+        if plan["label"].startswith("long-remark") or any(x["kind"] == "stretch" and x.get("cls") in ("comment", "tail") for x in plan["faults"]):
+            f.append("long-remark")
+        return f
 
     def sample(self, plan, obs):
         return {"tool": plan["tool"], "schema": plan["schema"], "label": plan["label"], "faults": plan["faults"], "hit": obs["where"], "rc": obs["rc"], "sig": obs["sig"],
